@@ -14,9 +14,9 @@ import Uquic.Generated.Ackhandler
 
 namespace Uquic.Model.Rcv
 
-abbrev PN := Int
+-- packet numbers are `Int` (written out: `omega` does not unfold abbreviations)
 /-- (Start, End) -/
-abbrev Range := PN × PN
+abbrev Range := Int × Int
 
 def maxNumAckRanges : Nat := Uquic.Gen.Protocol.MaxNumAckRanges.toNat
 def maxAckDelay : Int := Uquic.Gen.Protocol.MaxAckDelay
@@ -29,11 +29,11 @@ def invalidPN : Int := Uquic.Gen.Protocol.InvalidPacketNumber
 structure Hist where
   /-- descending: head = Go's `ranges[len-1]` -/
   ranges : List Range := []
-  deletedBelow : PN := invalidPN
+  deletedBelow : Int := invalidPN
 deriving Repr, BEq, DecidableEq
 
 /-- `addToRanges`, scanning from the highest range down. -/
-def addRev (p : PN) : List Range → List Range × Bool
+def addRev (p : Int) : List Range → List Range × Bool
   | [] => ([(p, p)], true)                         -- empty, or "create a new range at the beginning"
   | r :: rest =>
     if r.1 ≤ p ∧ p ≤ r.2 then (r :: rest, false)    -- already included
@@ -49,7 +49,7 @@ def addRev (p : PN) : List Range → List Range × Bool
       let (rest', b) := addRev p rest
       (r :: rest', b)
 
-def Hist.receivedPacket (h : Hist) (p : PN) : Hist × Bool :=
+def Hist.receivedPacket (h : Hist) (p : Int) : Hist × Bool :=
   if p < h.deletedBelow then (h, false)
   else
     let (rs, isNew) := addRev p h.ranges
@@ -57,20 +57,24 @@ def Hist.receivedPacket (h : Hist) (p : PN) : Hist × Bool :=
     let rs := if rs.length > maxNumAckRanges then rs.take maxNumAckRanges else rs
     ({ h with ranges := rs }, isNew)
 
-/-- the ascending loop of `DeleteBelow`, on the ascending list -/
-def delBelowAsc (p : PN) : List Range → List Range
-  | [] => []
+/-- The ascending loop of `DeleteBelow`, run over the descending list: the recursion handles the
+    lower ranges (the tail) first, exactly as the Go loop index runs upwards; the flag says that the
+    loop has already hit `break`. While it has not, every lower range was deleted (`idx` advanced). -/
+def delBelowDesc (p : Int) : List Range → List Range × Bool
+  | [] => ([], false)
   | r :: rest =>
-    if r.2 < p then delBelowAsc p rest
-    else if p > r.1 ∧ p ≤ r.2 then (p, r.2) :: rest
-    else r :: rest
+    let (rest', stopped) := delBelowDesc p rest
+    if stopped then (r :: rest', true)
+    else if r.2 < p then ([], false)                        -- delete a whole range
+    else if p > r.1 ∧ p ≤ r.2 then ((p, r.2) :: rest', true)  -- clip, break
+    else (r :: rest', true)                                  -- no ranges affected, break
 
-def Hist.deleteBelow (h : Hist) (p : PN) : Hist :=
+def Hist.deleteBelow (h : Hist) (p : Int) : Hist :=
   if p < h.deletedBelow then h
-  else { ranges := (delBelowAsc p h.ranges.reverse).reverse, deletedBelow := p }
+  else { ranges := (delBelowDesc p h.ranges).1, deletedBelow := p }
 
 /-- scan of `HighestMissingUpTo` after clamping `p`; list is descending -/
-def highestMissingScan (delBelow : PN) (p : PN) : List Range → PN
+def highestMissingScan (delBelow : Int) (p : Int) : List Range → Int
   | [] => p
   | r :: rest =>
     if r.1 ≤ p ∧ p ≤ r.2 then
@@ -81,21 +85,21 @@ def highestMissingScan (delBelow : PN) (p : PN) : List Range → PN
       | q :: _ => if p > q.2 ∧ p ≤ r.1 then p else highestMissingScan delBelow p rest
       | [] => highestMissingScan delBelow p rest
 
-def Hist.highestMissingUpTo (h : Hist) (p : PN) : PN :=
+def Hist.highestMissingUpTo (h : Hist) (p : Int) : Int :=
   match h.ranges with
   | [] => invalidPN
   | top :: _ =>
     if h.deletedBelow ≠ invalidPN ∧ p < h.deletedBelow then invalidPN
     else highestMissingScan h.deletedBelow (min top.2 p) h.ranges
 
-def dupScan (p : PN) : List Range → Bool
+def dupScan (p : Int) : List Range → Bool
   | [] => false
   | r :: rest =>
     if p > r.2 then false
     else if p ≤ r.2 ∧ p ≥ r.1 then true
     else dupScan p rest
 
-def Hist.isPotentiallyDuplicate (h : Hist) (p : PN) : Bool :=
+def Hist.isPotentiallyDuplicate (h : Hist) (p : Int) : Bool :=
   if p < h.deletedBelow then true else dupScan p h.ranges
 
 /-! ### wire.AckFrame as used here -/
@@ -109,11 +113,11 @@ structure Ack where
   ecnce : Nat := 0
 deriving Repr, BEq, DecidableEq
 
-def Ack.largestAcked (a : Ack) : PN := match a.ranges with | r :: _ => r.2 | [] => 0
-def Ack.lowestAcked (a : Ack) : PN := match a.ranges.getLast? with | some r => r.1 | none => 0
+def Ack.largestAcked (a : Ack) : Int := match a.ranges with | r :: _ => r.2 | [] => 0
+def Ack.lowestAcked (a : Ack) : Int := match a.ranges.getLast? with | some r => r.1 | none => 0
 
 /-- `AcksPacket`: `sort.Search` for the first range with `p ≥ Smallest` -/
-def Ack.acksPacket (a : Ack) (p : PN) : Bool :=
+def Ack.acksPacket (a : Ack) (p : Int) : Bool :=
   if p < a.lowestAcked ∨ p > a.largestAcked then false
   else match a.ranges.find? (fun r => p ≥ r.1) with
     | some r => p ≤ r.2
@@ -135,17 +139,18 @@ def ecnECT1 : Nat := Uquic.Gen.Protocol.ECT1.toNat
 def ecnECT0 : Nat := Uquic.Gen.Protocol.ECT0.toNat
 def ecnCE : Nat := Uquic.Gen.Protocol.ECNCE.toNat
 
-/-- returns `none` for the "BUG" error -/
-def Tracker.receivedPacket (t : Tracker) (pn : PN) (ecn : Nat) (ackEliciting : Bool) : Option Tracker :=
-  let (h, isNew) := t.hist.receivedPacket pn
-  if !isNew then none
-  else
-    let t := { t with hist := h }
-    let t := if ecn = ecnECT0 then { t with ect0 := t.ect0 + 1 }
-             else if ecn = ecnECT1 then { t with ect1 := t.ect1 + 1 }
-             else if ecn = ecnCE then { t with ecnce := t.ecnce + 1 }
-             else t
-    some (if ackEliciting then { t with hasNewAck := true } else t)
+/-- returns `none` for the "BUG" error. The Go `switch ecn` has distinct constant cases, so the
+    three counters are updated independently. -/
+def Tracker.receivedPacket (t : Tracker) (pn : Int) (ecn : Nat) (ackEliciting : Bool) : Option Tracker :=
+  let r := t.hist.receivedPacket pn
+  if !r.2 then none
+  else some
+    { ect0 := if ecn = ecnECT0 then t.ect0 + 1 else t.ect0
+      ect1 := if ecn = ecnECT1 then t.ect1 + 1 else t.ect1
+      ecnce := if ecn = ecnCE then t.ecnce + 1 else t.ecnce
+      hist := r.1
+      lastAck := t.lastAck
+      hasNewAck := t.hasNewAck || ackEliciting }
 
 def Tracker.getAckFrame (t : Tracker) : Tracker × Option Ack :=
   if !t.hasNewAck then (t, none)
@@ -158,18 +163,18 @@ def Tracker.getAckFrame (t : Tracker) : Tracker × Option Ack :=
 structure AppTracker where
   t : Tracker := {}
   largestObservedRcvdTime : Int := 0
-  largestObserved : PN := 0
-  ignoreBelow : PN := 0
+  largestObserved : Int := 0
+  ignoreBelow : Int := 0
   ackQueued : Bool := false
   count : Int := 0
   ackAlarm : Int := 0
 deriving Repr, BEq, DecidableEq
 
 /-- `LargestAcked()` indexes `AckRanges[0]`: `none` = index-out-of-range panic on an ACK without ranges -/
-def Ack.largestAcked? (a : Ack) : Option PN := match a.ranges with | r :: _ => some r.2 | [] => none
+def Ack.largestAcked? (a : Ack) : Option Int := match a.ranges with | r :: _ => some r.2 | [] => none
 
 /-- `none` = panic -/
-def AppTracker.isMissing (a : AppTracker) (p : PN) : Option Bool :=
+def AppTracker.isMissing (a : AppTracker) (p : Int) : Option Bool :=
   match a.t.lastAck with
   | none => some false
   | some la =>
@@ -205,30 +210,37 @@ def AppTracker.shouldQueueACK (a : AppTracker) (ecn : Nat) (wasMissing : Bool) :
 inductive RecvOut | ok | bug | zeroRTTAfter1RTT | panic
 deriving Repr, BEq, DecidableEq
 
+def AppTracker.noteLargest (a : AppTracker) (pn rcvTime : Int) : AppTracker :=
+  if pn ≥ a.largestObserved then { a with largestObserved := pn, largestObservedRcvdTime := rcvTime } else a
+
+/-- the queueing decision for an ack-eliciting packet (the counter is already incremented);
+    `none` = panic inside `isMissing` / `hasNewMissingPackets` -/
+def AppTracker.queueStep (a : AppTracker) (pn : Int) (ecn : Nat) (rcvTime : Int) : Option AppTracker :=
+  match a.isMissing pn with
+  | none => none
+  | some isMissing =>
+    match (if a.ackQueued then some false else a.shouldQueueACK ecn isMissing) with
+    | none => none
+    | some q =>
+      let a := if q then { a with ackQueued := true, ackAlarm := 0 } else a
+      some (if !a.ackQueued then { a with ackAlarm := rcvTime + maxAckDelay } else a)
+
 /-- On `panic` the returned state is what the Go object holds at the moment of the panic
     (history, counters and `largestObserved` are already updated). -/
-def AppTracker.receivedPacket (a : AppTracker) (pn : PN) (ecn : Nat) (rcvTime : Int) (ackEliciting : Bool) :
+def AppTracker.receivedPacket (a : AppTracker) (pn : Int) (ecn : Nat) (rcvTime : Int) (ackEliciting : Bool) :
     AppTracker × RecvOut :=
   match a.t.receivedPacket pn ecn ackEliciting with
   | none => (a, .bug)
   | some t =>
-    let a := { a with t := t }
-    let a := if pn ≥ a.largestObserved then { a with largestObserved := pn, largestObservedRcvdTime := rcvTime } else a
-    if !ackEliciting then (a, .ok)
+    let a1 := ({ a with t := t }).noteLargest pn rcvTime
+    if !ackEliciting then (a1, .ok)
     else
-      let a := { a with count := a.count + 1 }
-      match a.isMissing pn with
-      | none => (a, .panic)
-      | some isMissing =>
-        let q : Option Bool := if a.ackQueued then some false else a.shouldQueueACK ecn isMissing
-        match q with
-        | none => (a, .panic)
-        | some q =>
-          let a := if q then { a with ackQueued := true, ackAlarm := 0 } else a
-          let a := if !a.ackQueued then { a with ackAlarm := rcvTime + maxAckDelay } else a
-          (a, .ok)
+      let a2 := { a1 with count := a1.count + 1 }
+      match a2.queueStep pn ecn rcvTime with
+      | none => (a2, .panic)
+      | some a3 => (a3, .ok)
 
-def AppTracker.ignoreBelowOp (a : AppTracker) (pn : PN) : AppTracker :=
+def AppTracker.ignoreBelowOp (a : AppTracker) (pn : Int) : AppTracker :=
   if pn ≤ a.ignoreBelow then a
   else { a with ignoreBelow := pn, t := { a.t with hist := a.t.hist.deleteBelow pn } }
 
@@ -252,10 +264,10 @@ structure Handler where
   initial : Option Tracker := some {}
   handshake : Option Tracker := some {}
   app : AppTracker := {}
-  lowest1RTT : PN := invalidPN
+  lowest1RTT : Int := invalidPN
 deriving Repr, BEq, DecidableEq
 
-def Handler.receivedPacket (h : Handler) (pn : PN) (ecn : Nat) (lvl : Level) (rcvTime : Int) (ae : Bool) :
+def Handler.receivedPacket (h : Handler) (pn : Int) (ecn : Nat) (lvl : Level) (rcvTime : Int) (ae : Bool) :
     Handler × RecvOut :=
   match lvl with
   | .initial =>
@@ -299,12 +311,12 @@ def Handler.getAckFrame (h : Handler) (lvl : Level) (now : Int) (oiq : Bool) : H
   | .zeroRTT => (h, none)
 
 /-- `none` = panic("unexpected encryption level") for a dropped space -/
-def Handler.isPotentiallyDuplicate (h : Handler) (pn : PN) : Level → Option Bool
+def Handler.isPotentiallyDuplicate (h : Handler) (pn : Int) : Level → Option Bool
   | .initial => h.initial.map (·.hist.isPotentiallyDuplicate pn)
   | .handshake => h.handshake.map (·.hist.isPotentiallyDuplicate pn)
   | .zeroRTT | .oneRTT => some (h.app.t.hist.isPotentiallyDuplicate pn)
 
-def Handler.ignorePacketsBelow (h : Handler) (pn : PN) : Handler :=
+def Handler.ignorePacketsBelow (h : Handler) (pn : Int) : Handler :=
   { h with app := h.app.ignoreBelowOp pn }
 
 def Handler.alarm (h : Handler) : Int := h.app.ackAlarm
